@@ -3,6 +3,7 @@ import Canopy.Model.Bytes
 import Canopy.Gen.Keys
 import Canopy.Model.SignBytes
 import Canopy.Model.ProtoCrit
+import Canopy.Model.Merkle
 import Canopy.Gen.Proto
 /-! Driver for C19: (a) M-key, (b) sign bytes of certificates and consensus messages, (c) the modelled
 decoders. Stateless, one answer per line. -/
@@ -166,6 +167,11 @@ def step (line : String) : String :=
       | some t => if canon t == c then "bound" else "unbound"
       | none => "err"
     | _, _ => "bad-op"
+  | "merkle" :: items =>
+    -- crypto.MerkleTree root of the items ("-" = the empty item)
+    match items.mapM ofHex with
+    | some l => showBytes (Merkle.merkleRoot l)
+    | none => "bad-op"
   | ["preflight", raw] =>
     match ofHex raw with
     | some b => if preflight b then "ok" else "err"
